@@ -100,7 +100,7 @@ fn campaign(args: &[String]) -> i32 {
     let mut prog_f = progress.as_ref().map(|p| std::fs::OpenOptions::new().create(true).append(true).open(p).unwrap());
     let ro = RunOpts::default();
     let mut cand_f = arg(args, "--candidates-file").map(|p| std::fs::OpenOptions::new().create(true).append(true).open(p).unwrap());
-    let mut n_cand = 0;
+    let mut n_cand: std::collections::BTreeMap<String, u32> = Default::default();
     for run0 in from..to {
         let run = run0 + offset;
         if t0.elapsed().as_secs_f64() > budget_s {
@@ -164,8 +164,10 @@ fn campaign(args: &[String]) -> i32 {
         } else if let Some(v) = r.violations.first() {
             *res.other_violations.entry(format!("{}:{}", v.props.join("+"), v.class)).or_default() += 1;
             // C06 differential: the driver re-runs these on the build without apply cache
-            if let (Some(f), true) = (cand_f.as_mut(), n_cand < 4) {
-                n_cand += 1;
+            let key = format!("{}:{}", v.props.join("+"), v.class);
+            let seen = n_cand.entry(key).or_insert(0u32);
+            if let (Some(f), true) = (cand_f.as_mut(), *seen < 2) {
+                *seen += 1;
                 let rp = Replay {
                     engine: "E1".into(),
                     check: v.props.first().cloned().unwrap_or_default(),
